@@ -547,6 +547,7 @@ impl DrawState {
         // accurately reflect the number of lines that have been displayed on the terminal, if the
         // full height exceeds the terminal height.
         let mut real_height = VisualLines::default();
+        let mut last_line_filler = None;
 
         for (idx, line) in self.lines.iter().enumerate() {
             let line_height = line.wrapped_height(term_width);
@@ -577,13 +578,16 @@ impl DrawState {
 
             term.write_str(line.as_ref())?;
 
-            if idx + 1 == self.lines.len() {
-                // For the last line of the output, keep the cursor on the right terminal
-                // side so that next user writes/prints will happen on the next line
-                let last_line_filler =
-                    line_height.as_usize() * term_width - line.console_width() - pad;
-                term.write_str(&" ".repeat(last_line_filler))?;
-            }
+            // For the last line of the output, keep the cursor on the right terminal
+            // side so that next user writes/prints will happen on the next line
+            last_line_filler =
+                Some(line_height.as_usize() * term_width - line.console_width() - pad);
+        }
+
+        // (The last line written is not the last line of `self.lines` if the bars exceed the
+        // terminal height.)
+        if let Some(last_line_filler) = last_line_filler {
+            term.write_str(&" ".repeat(last_line_filler))?;
         }
 
         term.flush()?;
